@@ -22,6 +22,7 @@ Implementation: Regex-based line-by-line scanning with pattern-specific rule ID 
 import re
 from pathlib import Path
 
+from src.linter_config.directive_markers import source_lines
 from src.linters.lazy_ignores.directive_utils import create_directive, normalize_path
 from src.linters.lazy_ignores.types import IgnoreDirective, IgnoreType
 
@@ -77,7 +78,7 @@ class TypeScriptIgnoreDetector:
         directives: list[IgnoreDirective] = []
         effective_path = normalize_path(file_path)
 
-        for line_num, line in enumerate(code.splitlines(), start=1):
+        for line_num, line in enumerate(source_lines(code), start=1):
             directives.extend(self._scan_line(line, line_num, effective_path))
 
         return directives
